@@ -13,7 +13,7 @@ thread_local! {
     static POOLS: RefCell<BTreeMap<usize, Arc<rayon::ThreadPool>>> = RefCell::new(BTreeMap::new());
 }
 
-const POOL_SIZES: [usize; 6] = [1, 2, 3, 4, 8, 16];
+const POOL_SIZES: [usize; 9] = [1, 2, 3, 4, 8, 16, 5, 7, 32];
 
 fn pool(threads: u8) -> Arc<rayon::ThreadPool> {
     let n = POOL_SIZES[threads as usize % POOL_SIZES.len()];
@@ -127,6 +127,57 @@ impl<F: Fam> Ctx<F> {
                     if after != expect {
                         return Err("writes made through the parallel mutable iterators are not all visible (or applied twice)".to_string());
                     }
+                    // other kinds of consumer: reductions, a counting for_each, short-circuiting searches
+                    // (their consumers report `full()` and order their halves, unlike collect)
+                    {
+                        use std::sync::atomic::{AtomicUsize, Ordering};
+                        let seq_max = expect.iter().map(|x| x.0).max();
+                        let seq_min = expect.iter().map(|x| x.0).min();
+                        if m.par_keys().map(|k| k.k()).max() != seq_max || m.par_keys().map(|k| k.k()).min() != seq_min {
+                            return Err("par_keys().max()/min() differ from the sequential extremes".to_string());
+                        }
+                        let seq_sum: u64 = expect.iter().map(|x| x.1 as u64).sum();
+                        let par_sum: u64 = m.par_values().map(|v| v.v() as u64).sum();
+                        if par_sum != seq_sum {
+                            return Err(format!("sum over par_values is {}, sequential {}", par_sum, seq_sum));
+                        }
+                        let cnt = AtomicUsize::new(0);
+                        m.par_iter().for_each(|_| {
+                            cnt.fetch_add(1, Ordering::Relaxed);
+                        });
+                        if cnt.load(Ordering::Relaxed) != expect.len() {
+                            return Err(format!("par_iter().for_each ran {} times, map has {}", cnt.load(Ordering::Relaxed), expect.len()));
+                        }
+                        if !m.par_iter().all(|(k, v)| expect.binary_search(&(k.k(), v.v())).is_ok()) {
+                            return Err("par_iter().all: an element that the map does not hold was visited".to_string());
+                        }
+                        if !expect.is_empty() {
+                            let n = expect.len();
+                            for idx in [0, n / 2, n - 1, (rep as usize * 11 + 3) % n] {
+                                let (tk, tv) = expect[idx];
+                                let f_any = m.par_iter().find_any(|(k, _)| k.k() == tk).map(|(_, v)| v.v());
+                                let f_first = m.par_iter().find_first(|(k, _)| k.k() == tk).map(|(_, v)| v.v());
+                                let f_last = m.par_iter().find_last(|(k, _)| k.k() == tk).map(|(_, v)| v.v());
+                                if f_any != Some(tv) || f_first != Some(tv) || f_last != Some(tv) {
+                                    return Err(format!("find_any/find_first/find_last for a present key gave {:?}/{:?}/{:?}, expected {:?}", f_any, f_first, f_last, Some(tv)));
+                                }
+                                if !m.par_keys().any(|k| k.k() == tk) {
+                                    return Err("par_keys().any() misses a present key".to_string());
+                                }
+                            }
+                            if m.par_iter().find_first(|_| true).is_none() || m.par_iter().find_last(|_| true).is_none() {
+                                return Err("find_first/find_last(|_| true) found nothing in a non-empty map".to_string());
+                            }
+                        }
+                        if m.par_iter().find_any(|(k, _)| k.k() == 0x7fff_fff0).is_some() || m.par_keys().any(|k| k.k() == 0x7fff_fff0) {
+                            return Err("a search for an absent key found something".to_string());
+                        }
+                        // position-dependent consumers: enumerate-free partition and filter counts
+                        let (ev, od): (Vec<u32>, Vec<u32>) = m.par_keys().map(|k| k.k()).partition(|k| k % 2 == 0);
+                        if ev.len() + od.len() != expect.len() || ev.len() != expect.iter().filter(|x| x.0 % 2 == 0).count() {
+                            return Err(format!("partition over par_keys gave {} + {} keys, map has {}", ev.len(), od.len(), expect.len()));
+                        }
+                    }
                     // par_eq against sequential ==
                     let pe = m.par_eq(o);
                     let se = *m == *o;
@@ -205,7 +256,7 @@ impl<F: Fam> Ctx<F> {
             });
             match r {
                 Err((msg, loc)) => fail!(self, [C15], "unexpected-panic", "parallel operation panicked: {} at {}", msg, loc),
-                Ok(Err(msg)) => fail!(self, [C15], "rayon-mismatch", "{} (pool of {} threads, repetition {})", msg, POOL_SIZES[threads as usize % 6], rep),
+                Ok(Err(msg)) => fail!(self, [C15], "rayon-mismatch", "{} (pool of {} threads, repetition {})", msg, POOL_SIZES[threads as usize % POOL_SIZES.len()], rep),
                 Ok(Ok(())) => {}
             }
             for e in self.slots[s].model.values_mut() {
@@ -245,6 +296,30 @@ impl<F: Fam> Ctx<F> {
                         chk("par_intersection", x.par_intersection(y).map(|k| k.k()).collect(), mx.intersection(my).copied().collect())?;
                         chk("par_difference", x.par_difference(y).map(|k| k.k()).collect(), mx.difference(my).copied().collect())?;
                         chk("par_symmetric_difference", x.par_symmetric_difference(y).map(|k| k.k()).collect(), mx.symmetric_difference(my).copied().collect())?;
+                        {
+                            // other consumers over the algebra iterators: counts, searches, reductions
+                            let cu = x.par_union(y).count();
+                            let ci = x.par_intersection(y).count();
+                            let cd = x.par_difference(y).count();
+                            let cs = x.par_symmetric_difference(y).count();
+                            if cu != mx.union(my).count() || ci != mx.intersection(my).count() || cd != mx.difference(my).count() || cs != mx.symmetric_difference(my).count() {
+                                return Err(format!("count() over par_union/intersection/difference/symmetric_difference (order {}) = {}/{}/{}/{}", order, cu, ci, cd, cs));
+                            }
+                            if x.par_iter().map(|k| k.k()).max() != mx.iter().next_back().copied() || x.par_union(y).map(|k| k.k()).max() != mx.union(my).max().copied() {
+                                return Err(format!("max() over par_iter/par_union (order {}) differs from the reference", order));
+                            }
+                            for probe in mx.iter().take(1).chain(mx.iter().rev().take(1)).chain(my.iter().skip(my.len() / 2).take(1)) {
+                                let pr = *probe;
+                                if x.par_iter().find_any(|k| k.k() == pr).is_some() != mx.contains(&pr)
+                                    || x.par_union(y).find_first(|k| k.k() == pr).is_none()
+                                    || x.par_intersection(y).any(|k| k.k() == pr) != (mx.contains(&pr) && my.contains(&pr))
+                                    || x.par_difference(y).find_last(|k| k.k() == pr).is_some() != (mx.contains(&pr) && !my.contains(&pr))
+                                    || x.par_symmetric_difference(y).any(|k| k.k() == pr) != (mx.contains(&pr) ^ my.contains(&pr))
+                                {
+                                    return Err(format!("a search through the parallel set iterators (order {}) disagrees with the reference for element {}", order, pr));
+                                }
+                            }
+                        }
                         let preds = [
                             ("par_is_subset", x.par_is_subset(y), x.is_subset(y), mx.is_subset(my)),
                             ("par_is_superset", x.par_is_superset(y), x.is_superset(y), mx.is_superset(my)),
@@ -318,7 +393,7 @@ impl<F: Fam> Ctx<F> {
             });
             match r {
                 Err((msg, loc)) => fail!(self, [C15], "unexpected-panic", "parallel set operation panicked: {} at {}", msg, loc),
-                Ok(Err(msg)) => fail!(self, [C15], "rayon-mismatch", "{} (pool of {} threads, repetition {})", msg, POOL_SIZES[threads as usize % 6], rep),
+                Ok(Err(msg)) => fail!(self, [C15], "rayon-mismatch", "{} (pool of {} threads, repetition {})", msg, POOL_SIZES[threads as usize % POOL_SIZES.len()], rep),
                 Ok(Ok(())) => {}
             }
         }
